@@ -305,6 +305,19 @@ let oracle touch cap has_enf (prefix : symop list) (ops : symop array) (outs : s
             | [a; b] -> (int_of_string a, int_of_string b) | _ -> (0, 0)) (String.split_on_char ',' iv) in
         (* initial specification state: the prefix run sequentially *)
         let s0 = List.fold_left (fun s o -> fst (spec_exec touch cap s o true)) [] prefix in
+        (* a walk must report every mailbox that holds mail during the whole walk: non-empty after the
+           prefix and not the target of any concurrent removal / purge (no cap in force) *)
+        let stable mb =
+          cap = 0 && (sget (n_of_int mb) s0).b_msgs <> [] &&
+          not (Array.exists (fun o -> match o with SRemove (m, _) | SPurge m -> m = mb | _ -> false) ops) in
+        let visit_misses =
+          List.exists2 (fun o r -> match o with
+              | SVisit -> List.exists (fun mb -> stable mb &&
+                            not (List.exists (fun e -> match String.split_on_char '=' e with
+                                                       | [m; v] -> int_of_string m = mb && v <> "" | _ -> false)
+                                   (String.split_on_char ';' (String.sub r 1 (String.length r - 1))))) universe
+              | _ -> false) (Array.to_list ops) rs in
+        if visit_misses then "fail:visit-missed-mailbox" else
         match expand_actions ops flags ivs rs with
         | None -> "fail:malformed-observation"
         | Some acts -> if explain touch cap s0 acts final then "ok" else "fail:not-linearizable"
